@@ -139,7 +139,7 @@ def spec (w : World) (p : Proxy) (names : List Str) (req : Option PushReq) : Opt
           match w.forCluster w.configCluster with
           | none => none
           | some _ =>
-            some ((filterAuthorized p id (pa.auth.authz id.sa id.ns)
+            some ((filterAuthorized p id (pa.authz id.sa id.ns)
               (parseResources names id.ns p.cluster w.configCluster)).filterMap (releaseOne w rq))
 
 /-- What can happen to the shared SDS cache: a `Generate` call by any proxy for any names with any push
@@ -183,8 +183,8 @@ def Entitled (p : Proxy) (id : Identity) (pc : Cluster) (sr : SR) : Prop :=
   | .configmap => True
   | .invalid => False
 
-theorem allowed_entitled {p : Proxy} {id : Identity} {pc : Cluster} {sr : SR}
-    (h : allowed p id (pc.authz id.sa id.ns) sr = true) : Entitled p id pc sr := by
+theorem allowed_entitled {p : Proxy} {id : Identity} {pc : Cluster} {sr : SR} {b : Bool}
+    (h : allowed p id b sr = true) (hb : b = true → pc.authz id.sa id.ns = true) : Entitled p id pc sr := by
   unfold allowed at h
   unfold Entitled
   split at h
@@ -194,8 +194,18 @@ theorem allowed_entitled {p : Proxy} {id : Identity} {pc : Cluster} {sr : SR}
     · cases h
   · rename_i ht; simp only [ht]
   · rename_i ht; simp only [ht]
-    simpa using h
+    simp only [Bool.and_eq_true, Bool.or_eq_true, decide_eq_true_eq] at h
+    refine ⟨h.1, ?_⟩
+    cases h.2 with
+    | inl h2 => exact Or.inl h2
+    | inr h2 => exact Or.inr (hb h2)
   · cases h
+
+/-- The aggregate authorises only if the proxy's own cluster controller runs and allows. -/
+theorem agg_authz {a : Agg} {sa ns : Str} (h : a.authz sa ns = true) : a.auth.authz sa ns = true := by
+  unfold Agg.authz at h
+  simp only [Bool.and_eq_true] at h
+  exact h.2
 
 /-- Whatever the cache contains - consistent or poisoned - each returned element was either read from the
     cache under the key of an *authorised* resource of this request, or freshly generated for one. -/
